@@ -1119,9 +1119,39 @@ func callBuiltin(caller *frame, callpos token.Pos, fn *ssa.Builtin, args []value
 
 	case "ssa:deferstack":
 		return &caller.defers
+
+	// package unsafe: only the data-pointer idioms of the standard library, with the
+	// pointer remembering the slice or string it came from
+	case "SliceData":
+		s, _ := args[0].([]value)
+		return unsafeData{elems: s}
+	case "StringData":
+		return unsafeData{elems: elemsOf(args[0]), str: true}
+	case "String":
+		d, ok := args[0].(unsafeData)
+		if !ok {
+			panic(pathAbort{"unsupported", "unsafe.String on a pointer that did not come from unsafe.SliceData/StringData"})
+		}
+		n := asInt64(args[1])
+		return normStr(append(symstr{}, d.elems[:n]...))
+	case "Slice":
+		d, ok := args[0].(unsafeData)
+		if !ok {
+			panic(pathAbort{"unsupported", "unsafe.Slice on a pointer that did not come from unsafe.SliceData/StringData"})
+		}
+		n := asInt64(args[1])
+		out := make([]value, n)
+		copy(out, d.elems[:n])
+		return out
 	}
 
 	panic("unknown built-in: " + fn.Name())
+}
+
+// unsafeData is the result of unsafe.SliceData / unsafe.StringData.
+type unsafeData struct {
+	elems []value
+	str   bool
 }
 
 func rangeIter(x value, t types.Type) iter {
